@@ -2633,6 +2633,11 @@ func (s *Server) serveConnCounted(c net.Conn, countConcurrency bool) error {
 		ctx.connRequestNum = connRequestNum
 		ctx.time = time.Now()
 
+		// ctx is replaced below when the handler timed out, so remember what
+		// the response needs to know about the request.
+		isHead := ctx.IsHead()
+		isHTTP11 := ctx.Request.Header.IsHTTP11()
+
 		// If a client denies a request the handler should not be called
 		if continueReadingRequest {
 			s.Handler(ctx)
@@ -2652,7 +2657,7 @@ func (s *Server) serveConnCounted(c net.Conn, countConcurrency bool) error {
 			timeoutResponse.CopyTo(&ctx.Response)
 		}
 
-		if ctx.IsHead() {
+		if isHead {
 			ctx.Response.SkipBody = true
 		}
 
@@ -2680,7 +2685,7 @@ func (s *Server) serveConnCounted(c net.Conn, countConcurrency bool) error {
 			(s.CloseOnShutdown && s.stop.Load() == 1)
 		if connectionClose {
 			ctx.Response.Header.SetConnectionClose()
-		} else if !ctx.Request.Header.IsHTTP11() {
+		} else if !isHTTP11 {
 			// Set 'Connection: keep-alive' response header for HTTP/1.0 request.
 			// There is no need in setting this header for http/1.1, since in http/1.1
 			// connections are keep-alive by default.
